@@ -26,7 +26,7 @@ ASSUMPTIONS = ['the filter / weight model in this file is written from the optio
                'blacklist intervals are longer than a read and their edges are >=2 bp away from read ends (boundary coincidences are don\'t-care)',
                '--splitFeatures together with -byValue is documented as not implemented and not generated']
 MIN_NONTRIVIAL = {'quick': 100, 'thorough': 12000}
-REQUIRED_MONITORS = ['ret:create_count_table', 'files:several_in_one_call', 'oracle:cells_compared', 'opt:dedup', 'opt:no_indels', 'opt:no_softclips', 'opt:divideMultimapping',
+REQUIRED_MONITORS = ['ret:create_count_table', 'output:csv', 'output:pickle', 'files:several_in_one_call', 'oracle:cells_compared', 'opt:dedup', 'opt:no_indels', 'opt:no_softclips', 'opt:divideMultimapping',
                      'opt:byValue', 'opt:bedfile', 'opt:blacklist', 'opt:contig', 'opt:filterXA', 'opt:filterMP', 'reads:filtered_out', 'reads:half_weight']
 SHARD_TIMEOUT = {'quick': 900, 'thorough': 5400}
 
@@ -97,7 +97,7 @@ def gen_bam(r, contigs):
         elif x < 0.65:
             tags['XF'] = r.choice(['geneA,geneB', 'geneC,geneA'])
         if r.random() < 0.5:
-            tags['xv'] = r.choice([1, 2, 5, 0.5, 3.25])
+            tags['xv'] = r.choice([1, 2, 5, 0.5, 3.25, 1234569, 7654321.5, 100000.25])
         mapq = r.choice([0, 1, 10, 19, 20, 30, 59, 60])
         rec = {'name': f'q{rid}', 'flag': flag, 'tid': tid, 'pos': pos, 'mapq': 0 if unmapped else mapq, 'cigar': None if unmapped else cig,
                'seq': 'A' * qlen, 'qual': [30] * qlen, 'tags': tags,
@@ -358,6 +358,39 @@ def run_case(case):
             return acc
         acc.evals += 1
         acc.count('ret:create_count_table')
+        # ---- the table as it is written out: the same call with an output path (csv / pickle) is read back and must hold the same numbers
+        out_form = r.choice([None, 'csv', 'csv', 'pickle', 'pickle.gz'])
+        if out_form:
+            import pandas as pd
+            ns.o = os.path.join(dd, 'table.' + out_form)
+            acc.count('output:' + out_form.split('.')[0])
+            try:
+                with contextlib.redirect_stdout(io.StringIO()):
+                    b2c.create_count_table(ns, return_df=False)
+                if out_form == 'csv':
+                    back = pd.read_csv(ns.o, header=list(range(df.columns.nlevels)), index_col=list(range(df.index.nlevels)),
+                                       keep_default_na=False, na_values=['']) if len(df) else df
+                else:
+                    back = pd.read_pickle(ns.o)
+                written = normalise_df(back) if len(back) else {}
+                inmem = normalise_df(df) if len(df) else {}
+                def lab(x):
+                    # a missing sample / feature value has no unambiguous spelling in a csv file (None, empty, nan): one label for all of them
+                    sx = str(x)
+                    return 'None' if x is None or sx in ('', 'nan', 'None') or sx.startswith('Unnamed:') else (sx[:-2] if sx.endswith('.0') and sx[:-2].lstrip('-').isdigit() else sx)
+                wkeys, mkeys = Counter(), Counter()
+                for k, v in written.items():
+                    wkeys[(tuple(lab(x) for x in k[0]), tuple(lab(x) for x in k[1]))] += v
+                for k, v in inmem.items():
+                    mkeys[(tuple(lab(x) for x in k[0]), tuple(lab(x) for x in k[1]))] += v
+                bad = [(k, wkeys.get(k, 0.0), mkeys.get(k, 0.0)) for k in set(wkeys) | set(mkeys)
+                       if abs(wkeys.get(k, 0.0) - mkeys.get(k, 0.0)) > 1e-9 * max(1.0, abs(mkeys.get(k, 0.0)))]
+                if bad:
+                    acc.violate('written-table-differs-from-counts:' + out_form.split('.')[0],
+                                f'the table written to {os.path.basename(ns.o)} differs from the counts in {len(bad)} cells, e.g. {sorted(bad, key=str)[:3]} (written, counted); options {shown}', wit)
+            except Exception as ex:
+                if len(df):
+                    acc.violate('writing-table-raised:' + type(ex).__name__, f'writing / reading back {out_form} raised {ex!r} with options {shown}', wit)
         exp, stats = model(recs, contigs, a, feats, mode)
         for m in more:
             e2, s2 = model(m, contigs, a, feats, mode)
